@@ -24,7 +24,7 @@ PodNameOf(o, sh) == CASE sh = "foo-%"   -> "foo-" \o ToString(o)
                       [] OTHER          -> "foox-" \o ToString(o)
 MkPod(o, c) == [new |-> FALSE, name |-> PodNameOf(o, c.shape), ord |-> IF c.shape = "foo-%-x" THEN -1 ELSE o,
                 member |-> c.shape = "foo-%", match |-> c.match, owner |-> c.owner, phase |-> "Running", ready |-> TRUE,
-                term |-> c.term, rev |-> "t2.0", identOK |-> c.shape = "foo-%", storOK |-> c.shape # "foo-%-x"]
+                term |-> c.term, rev |-> "t2.0", identOK |-> c.shape = "foo-%", storOK |-> c.shape # "foo-%-x", uidOK |-> TRUE]
 PodSeq == SetToSortSeq({MkPod(o, pods[o]) : o \in {x \in DOMAIN pods : pods[x].present}}, LAMBDA a, b : a.ord < b.ord \/ (a.ord = b.ord /\ a.name # b.name /\ a.member))
 
 TmplOf(k) == "t" \o ToString(k)
@@ -36,7 +36,7 @@ StdRevs == << [name |-> "t0.0", tmpl |-> "t0", num |-> 1, created |-> 100, owner
 RevSeq == IF Mode = "pods" THEN StdRevs
           ELSE SetToSortSeq({MkRev(k, revs[k]) : k \in {x \in DOMAIN revs : revs[x].present}}, LAMBDA a, b : a.rank < b.rank)
 OnePod == << [new |-> FALSE, name |-> "foo-0", ord |-> 0, member |-> TRUE, match |-> TRUE, owner |-> "self", phase |-> "Running",
-              ready |-> TRUE, term |-> FALSE, rev |-> "t2.0", identOK |-> TRUE, storOK |-> TRUE] >>
+              ready |-> TRUE, term |-> FALSE, rev |-> "t2.0", identOK |-> TRUE, storOK |-> TRUE, uidOK |-> TRUE] >>
 
 SnOf ==
   [set |-> [name |-> "foo", cached |-> TRUE, replicas |-> rep, slots |-> {}, policy |-> pol, strat |-> "RollingUpdate",
